@@ -154,6 +154,41 @@ class Reference:
         return a, e
 
 
+def sweep(ref, mu2s):
+    """{mu2: (a_s, a_em) | None} for many scales at once: one upward and one downward pass from the
+    reference point, each target reached from the previous one (same ODE, same lepton-number rule)."""
+    mp.mp.dps = DPS
+    out = {}
+    if not ref.running:
+        for m in mu2s:
+            out[m] = ref.at(m)
+        return out
+    ups = sorted(m for m in mu2s if mp.mpf(m) >= ref.mu2_ref)
+    downs = sorted((m for m in mu2s if mp.mpf(m) < ref.mu2_ref), reverse=True)
+    for seq in (ups, downs):
+        s_cur, a, e = ref.mu2_ref, ref.a0, ref.e0
+        dead = False
+        for m in seq:
+            if dead:
+                out[m] = None
+                continue
+            tgt = mp.mpf(m)
+            nli, nlf = nl_of(s_cur), nl_of(tgt)
+            legs = [(nli, s_cur, tgt)] if nli == nlf else [(nli, s_cur, MTAU2), (nlf, MTAU2, tgt)]
+            for nl, s0, s1 in legs:
+                r = solve_coupled_segment(ref.order, ref.nf, nl, a, e, mp.log(s1 / s0), ref.amax)
+                if r is None:
+                    dead = True
+                    break
+                a, e = r
+            if dead:
+                out[m] = None
+                continue
+            s_cur = tgt
+            out[m] = (a, e)
+    return out
+
+
 def conformance():
     """The two solvers must agree where both apply (alpha_em fixed <=> coupled system with m=0)."""
     mp.mp.dps = DPS
